@@ -116,8 +116,9 @@ Proof. vm_compute. reflexivity. Qed.
 (* the attributes a run does not recompute are exactly these two; both are initialised by
    __init__ (so a fresh machine has them) *)
 Theorem C18_persistent_attributes :
-  persist = ["right_disp_map"; "step"]%string /\ subset_s persist attrs_init = true.
-Proof. split; [reflexivity|vm_compute; reflexivity]. Qed.
+  persist = ["right_disp_map"; "step"]%string /\ subset_s persist attrs_init = true /\
+  returned_attrs = products.       (* pandora.run returns exactly the two product attributes *)
+Proof. split; [reflexivity|split; vm_compute; reflexivity]. Qed.
 
 (* class-level / module-level dictionaries written by check/run code: every writer overwrites
    the same keys before validating *)
